@@ -8,8 +8,9 @@ compared   per step: value / exception (KeyError with its name, IndexError), hit
           every (name, pattern) of the tables, the comment and uri patterns  — model vs implementation
 oracle     (implementation only) after every call the tables are recomputed by `_expand_macros` /
           `_compile_productions` directly, past the cache, under the module-level tables as they are then: the
-          look-up must return exactly that (T12.4); the long-lived Tokenizer objects are compared with it too
-          (stale after settings.set: finding C12-settings-stale-tokenizers)
+          look-up must return exactly that (T12.4); after every step the long-lived Tokenizer objects run once
+          (`tokenize('')`) and the tables they worked with are compared with it too (the former finding
+          C12-settings-stale-tokenizers, fixed by 7a36f78: `tokenize` re-binds the tables)
 """
 import re
 
@@ -172,7 +173,30 @@ def run_memo(req):
                 step = {'out': 're.error'}
             step['entries'] = len(cache)
             step['fresh'] = recompute(m, p)
+        # a run of every long-lived tokenizer (all were created with the default arguments): `tokenize` starts with
+        # `_bind()`, the same look-up as in `__init__` (model: Memo.runTokenizer, request `run:N:N`). The first run is
+        # observed like a look-up; the others find the entry the first one left
+        first = True
+        for _k in sorted(longlived):
+            t = longlived[_k]
+            before = len(cache)
+            try:
+                for _tok in t.tokenize(''):
+                    pass
+                obs = {'out': 'ok', 'hit': len(cache) == before, 'tables': _patterns(t.tokenmatches),
+                       'comment': t.commentmatcher.__self__.pattern, 'uri': t.urimatcher.__self__.pattern}
+            except KeyError as e:
+                obs = {'out': 'KeyError:' + str(e.args[0])}
+            except IndexError:
+                obs = {'out': 'IndexError'}
+            except re.error:
+                obs = {'out': 're.error'}
+            obs['entries'] = len(cache)
+            if first:
+                step['run'] = obs
+                first = False
         cur = recompute(None, None)
+        # the tables the last run of each long-lived object worked with
         step['stale'] = sorted(k for k, t in longlived.items() if _patterns(t.tokenmatches) != cur.get('tables'))
         out['steps'].append(step)
     return out
@@ -200,6 +224,7 @@ def model_line(ops, G, fuel=12):
             m = build_macros(op['m'], M)
             p = build_prods(op['p'], P)
             words.append('new:%s:%s' % (enc_items(None if m is None else list(m.items())), enc_items(p)))
+        words.append('run:N:N')            # the runs of the long-lived tokenizers after every step
     return 'memo %d %s %s' % (fuel, glob, ' '.join(words))
 
 
